@@ -251,23 +251,36 @@ def run(run):
             else:
                 run.check("R2", "%s|returns-flag" % name, all(f == (want, True) for f in flags), "%s must report the segment's %s; found %s" % (name, want, flags), site)
         fn = F.fn("get_ro_data_pointer_at_address", adt="RuntimeMemoryImage")
-        sy = S.Sym(F)
-        term = sy.term(fn["body"])
         site = F.loc(fn["body"])
-        found = False
-        for ite in find_ites(term):
-            fc = flag_cond(ite[1])
-            if not fc:
-                continue
-            found = True
-            flag, pol = fc
-            tb, eb = (ite[2], ite[3]) if pol else (ite[3], ite[2])
-            errs = [r for r in returns(tb) if r[0] == "adt" and r[2] == "Err"]
-            oks = [r for r in returns(eb) if r[0] == "adt" and r[2] == "Ok"]
-            run.check("R2", "get_ro_data_pointer_at_address|writable-is-error", flag == "write_flag" and bool(errs) and bool(oks),
-                      "must fail exactly for segments with write_flag set; found flag `%s` polarity %s" % (flag, pol), site)
-        if not found:
-            run.violated("R2", "get_ro_data_pointer_at_address|writable-is-error", "no test of the segment's write flag", site)
+        from .lib import peval as PE
+
+        def ro_case(writable):
+            hits = {"n": 0}
+
+            def assume(n):
+                if n.get("k") == "Field" and n.get("fn") == "write_flag":
+                    hits["n"] += 1
+                    return ("bool", writable)
+                return None
+            res, nodes = PE.Spec(F, assume=assume, follow_calls=True).results(fn["body"], {})
+            return [PE.result_kind(r) for r in res], hits["n"]
+        kinds_w, h1 = ro_case(True)
+        kinds_r, h2 = ro_case(False)
+        key = "get_ro_data_pointer_at_address|writable-is-error"
+        reads_flag = any(x.get("k") == "Field" and x.get("fn") == "write_flag" for x in T.walk_deep(F, fn["body"], 2))
+        if not reads_flag:
+            run.violated("R2", key, "no test of the segment's write flag", site)
+        elif not (h1 and h2):
+            run.undecided("R2", key, "the write flag is read but not as a condition this rule can specialise", site)
+        elif "Ok" in kinds_w:
+            run.violated("R2", key, "must fail exactly for segments with write_flag set; a pointer is returned for a writable segment", site)
+        elif "Ok" not in kinds_r:
+            if None in kinds_r:
+                run.undecided("R2", key, "results for a read-only segment not recognised: %s" % kinds_r, site)
+            else:
+                run.violated("R2", key, "must fail exactly for segments with write_flag set; no pointer is returned for a read-only segment", site)
+        else:
+            run.holds("R2", key, "", site)
 
     run.guarded("R2", r2)
 
